@@ -470,8 +470,8 @@ def stages(tier):
     q = tier == "quick"
     return [
         EnumStage("sequences", seq_cases(3 if q else 4), shards=6 if q else 16, scope=f"all sequences of <= {3 if q else 4} fields over 12 base kinds x {{packed, aligned}}"),
-        HypStage("nested", fixed_case, examples=500 if q else 4000, shards=8 if q else 16),
-        HypStage("reuse", reuse_case, examples=300 if q else 2500, shards=4 if q else 8),
+        HypStage("nested", fixed_case, examples=500 if q else 10000, shards=8 if q else 16),
+        HypStage("reuse", reuse_case, examples=300 if q else 6000, shards=4 if q else 8),
         HypStage("sizeof-history", sizeof_history_case, examples=150 if q else 1500, shards=2),
         EnumStage("aliases", alias_cases, shards=2, scope="every fixed-width name of the built-in typedef table x {packed, aligned}: member, array element, sizeof"),
     ]
